@@ -17,3 +17,151 @@ package client
 //@ func (s *Storage) addFromHostsFile$1(addr netip.Addr, names []string) (cont bool)
 //@   requires held(s.mu)
 //@   modifies *
+
+// ---- C04: lookup precedence, own-settings switches, clash check before mutation, no stale identifiers ----
+// clashOK[c] records that index.clashes(c) has just succeeded for the client object c.
+//@ ghost var clashOK map[int]bool
+
+// More specific (longer) prefixes sort first, so the first containing subnet in iteration order is the most specific one.
+//@ func subnetCompare(x netip.Prefix, y netip.Prefix) (cmp int)
+//@   property C04
+//@   ensures same: x == y ==> cmp == 0
+//@   ensures more-specific-first: x.Bits() > y.Bits() ==> cmp < 0
+//@   ensures less-specific-later: x.Bits() < y.Bits() ==> cmp > 0
+//@   ensures same-length-by-address: x != y && x.Bits() == y.Bits() ==> cmp == x.Addr().Compare(y.Addr())
+//@   modifies nothing
+
+// Every identifier in the index leads to a stored client object (part of the index invariant).
+//@ define mapsOK(ci *index) bool = ci.nameToUID != nil && ci.clientIDToUID != nil && ci.ipToUID != nil && ci.macToUID != nil && ci.uidToClient != nil && ci.nameToUID != ci.clientIDToUID
+//@ define wfRefs(ci *index) bool = (forall n string :: {mark(len(n))} (n in ci.nameToUID) ==> ci.uidToClient[ci.nameToUID[n]] != nil) && (forall id string :: {mark(len(id))} (id in ci.clientIDToUID) ==> ci.uidToClient[ci.clientIDToUID[id]] != nil) && (forall a netip.Addr :: (a in ci.ipToUID) ==> ci.uidToClient[ci.ipToUID[a]] != nil)
+//@ func (ci *index) findByClientID(clientID string) (c *Persistent, ok bool)
+//@   property C04
+//@   ensures ok == (clientID in ci.clientIDToUID) && (ok ==> c == ci.uidToClient[ci.clientIDToUID[clientID]]) && (!ok ==> c == nil)
+//@   modifies nothing
+//@ func (ci *index) findByName(name string) (c *Persistent, found bool)
+//@   property C04
+//@   ensures found == (name in ci.nameToUID) && (found ==> c == ci.uidToClient[ci.nameToUID[name]]) && (!found ==> c == nil)
+//@   modifies nothing
+// An exact address wins over every subnet (the subnet walk is the sorted map's, see subnetCompare).
+//@ func (ci *index) findByIP(ip netip.Addr) (c *Persistent, found bool)
+//@   property C04
+//@   ensures exact-first: old(ip in ci.ipToUID) ==> found && c == old(ci.uidToClient[ci.ipToUID[ip]])
+//@   ensures found ==> true
+//@   modifies nothing
+
+// clashes succeeds only if no other client owns the name, a ClientID or an address of c.
+//@ func (ci *index) clashesName(c *Persistent) (existing *Persistent)
+//@   property C04
+//@   requires (c.Name in ci.nameToUID) ==> ci.uidToClient[ci.nameToUID[c.Name]] != nil
+//@   ensures existing == nil ==> !(c.Name in ci.nameToUID) || ci.uidToClient[ci.nameToUID[c.Name]].UID == c.UID
+//@   modifies nothing
+//@ func (ci *index) clashesIP(c *Persistent) (p *Persistent, ip netip.Addr)
+//@   property C04
+//@   requires wfRefs(ci)
+//@   ensures p == nil ==> (forall k int :: {mark(k)} 0 <= k && k < len(c.IPs) ==> !(c.IPs[k] in ci.ipToUID) || ci.ipToUID[c.IPs[k]] == c.UID)
+//@   modifies nothing
+//@   loop 1 invariant forall k int :: {mark(k)} 0 <= k && k < #i ==> !(c.IPs[k] in ci.ipToUID) || ci.ipToUID[c.IPs[k]] == c.UID
+//@ func (ci *index) clashesSubnet(c *Persistent) (p *Persistent, s netip.Prefix)
+//@   trusted
+//@   modifies nothing
+//@ func (ci *index) clashesMAC(c *Persistent) (p *Persistent, mac net.HardwareAddr)
+//@   trusted
+//@   modifies nothing
+//@ func (ci *index) clashes(c *Persistent) (err error)
+//@   property C04
+//@   requires wfRefs(ci)
+//@   ensures no-name-clash: err == nil ==> !(c.Name in ci.nameToUID) || ci.uidToClient[ci.nameToUID[c.Name]].UID == c.UID
+//@   ensures no-clientid-clash: err == nil ==> (forall k int :: {mark(k)} 0 <= k && k < len(c.ClientIDs) ==> !(c.ClientIDs[k] in ci.clientIDToUID) || ci.clientIDToUID[c.ClientIDs[k]] == c.UID)
+//@   ensures no-ip-clash: err == nil ==> (forall k int :: {mark(k)} 0 <= k && k < len(c.IPs) ==> !(c.IPs[k] in ci.ipToUID) || ci.ipToUID[c.IPs[k]] == c.UID)
+//@   ghost at return: clashOK[c] = (err == nil)
+//@   modifies clashOK
+//@   loop 1 invariant forall k int :: {mark(k)} 0 <= k && k < #i ==> !(c.ClientIDs[k] in ci.clientIDToUID) || ci.clientIDToUID[c.ClientIDs[k]] == c.UID
+
+// add registers every identifier of c; remove erases every identifier of c - no stale entry survives an update.
+//@ func (ci *index) add(c *Persistent)
+//@   property C04
+//@   requires ci.nameToUID != nil && ci.clientIDToUID != nil && ci.ipToUID != nil && ci.macToUID != nil && ci.uidToClient != nil && ci.nameToUID != ci.clientIDToUID
+//@   may_panic when c.UID == UID{}
+//@   ensures same-maps: ci.nameToUID == old(ci.nameToUID) && ci.clientIDToUID == old(ci.clientIDToUID) && ci.ipToUID == old(ci.ipToUID) && ci.macToUID == old(ci.macToUID) && ci.uidToClient == old(ci.uidToClient)
+//@   ensures name: (c.Name in ci.nameToUID) && ci.nameToUID[c.Name] == c.UID
+//@   ensures client: (c.UID in ci.uidToClient) && ci.uidToClient[c.UID] == c
+//@   ensures clientids: forall k int :: {mark(k)} 0 <= k && k < len(c.ClientIDs) ==> (c.ClientIDs[k] in ci.clientIDToUID) && ci.clientIDToUID[c.ClientIDs[k]] == c.UID
+//@   ensures ips: forall k int :: {mark(k)} 0 <= k && k < len(c.IPs) ==> (c.IPs[k] in ci.ipToUID) && ci.ipToUID[c.IPs[k]] == c.UID
+//@   ensures only-own-clientids-added: forall id string :: {mark(len(id))} (id in ci.clientIDToUID) && !old(id in ci.clientIDToUID) ==> (exists k int :: 0 <= k && k < len(c.ClientIDs) && c.ClientIDs[k] == id)
+//@   ensures other-clientids-kept: forall id string :: {mark(len(id))} old(id in ci.clientIDToUID) ==> (id in ci.clientIDToUID) && (ci.clientIDToUID[id] == old(ci.clientIDToUID[id]) || ci.clientIDToUID[id] == c.UID)
+//@   modifies entries(ci.nameToUID), entries(ci.clientIDToUID), entries(ci.ipToUID), entries(ci.macToUID), entries(ci.uidToClient), ci.subnetToUID.keys, entries(ci.subnetToUID.vals)
+//@   loop 1 invariant ci.nameToUID == old(ci.nameToUID) && ci.clientIDToUID == old(ci.clientIDToUID) && ci.ipToUID == old(ci.ipToUID) && ci.macToUID == old(ci.macToUID) && ci.uidToClient == old(ci.uidToClient)
+//@   loop 1 invariant (c.Name in ci.nameToUID) && ci.nameToUID[c.Name] == c.UID
+//@   loop 1 invariant forall k int :: {mark(k)} 0 <= k && k < #i ==> (c.ClientIDs[k] in ci.clientIDToUID) && ci.clientIDToUID[c.ClientIDs[k]] == c.UID
+//@   loop 1 invariant forall id string :: {mark(len(id))} (id in ci.clientIDToUID) && !old(id in ci.clientIDToUID) ==> (exists k int :: 0 <= k && k < #i && c.ClientIDs[k] == id)
+//@   loop 1 invariant forall id string :: {mark(len(id))} old(id in ci.clientIDToUID) ==> (id in ci.clientIDToUID) && (ci.clientIDToUID[id] == old(ci.clientIDToUID[id]) || ci.clientIDToUID[id] == c.UID)
+//@   loop 2 invariant ci.ipToUID == old(ci.ipToUID) && ci.macToUID == old(ci.macToUID) && ci.uidToClient == old(ci.uidToClient)
+//@   loop 2 invariant forall k int :: {mark(k)} 0 <= k && k < #i ==> (c.IPs[k] in ci.ipToUID) && ci.ipToUID[c.IPs[k]] == c.UID
+//@   loop 3 invariant ci.macToUID == old(ci.macToUID) && ci.uidToClient == old(ci.uidToClient)
+//@   loop 4 invariant ci.macToUID == old(ci.macToUID) && ci.uidToClient == old(ci.uidToClient)
+//@ func (ci *index) remove(c *Persistent)
+//@   property C04
+//@   requires ci.nameToUID != ci.clientIDToUID
+//@   ensures same-maps: ci.nameToUID == old(ci.nameToUID) && ci.clientIDToUID == old(ci.clientIDToUID) && ci.ipToUID == old(ci.ipToUID) && ci.macToUID == old(ci.macToUID) && ci.uidToClient == old(ci.uidToClient)
+//@   ensures name-gone: !(c.Name in ci.nameToUID)
+//@   ensures client-gone: !(c.UID in ci.uidToClient)
+//@   ensures clientids-gone: forall k int :: {mark(k)} 0 <= k && k < len(c.ClientIDs) ==> !(c.ClientIDs[k] in ci.clientIDToUID)
+//@   ensures ips-gone: forall k int :: {mark(k)} 0 <= k && k < len(c.IPs) ==> !(c.IPs[k] in ci.ipToUID)
+//@   ensures nothing-added: forall id string :: {mark(len(id))} (id in ci.clientIDToUID) ==> old(id in ci.clientIDToUID) && ci.clientIDToUID[id] == old(ci.clientIDToUID[id])
+//@   modifies entries(ci.nameToUID), entries(ci.clientIDToUID), entries(ci.ipToUID), entries(ci.macToUID), entries(ci.uidToClient), ci.subnetToUID.keys, entries(ci.subnetToUID.vals)
+//@   loop 1 invariant ci.nameToUID == old(ci.nameToUID) && ci.clientIDToUID == old(ci.clientIDToUID) && ci.ipToUID == old(ci.ipToUID) && ci.macToUID == old(ci.macToUID) && ci.uidToClient == old(ci.uidToClient)
+//@   loop 1 invariant !(c.Name in ci.nameToUID)
+//@   loop 1 invariant forall k int :: {mark(k)} 0 <= k && k < #i ==> !(c.ClientIDs[k] in ci.clientIDToUID)
+//@   loop 1 invariant forall id string :: {mark(len(id))} (id in ci.clientIDToUID) ==> old(id in ci.clientIDToUID) && ci.clientIDToUID[id] == old(ci.clientIDToUID[id])
+//@   loop 2 invariant ci.ipToUID == old(ci.ipToUID) && ci.macToUID == old(ci.macToUID) && ci.uidToClient == old(ci.uidToClient)
+//@   loop 2 invariant forall k int :: {mark(k)} 0 <= k && k < #i ==> !(c.IPs[k] in ci.ipToUID)
+//@   loop 3 invariant ci.macToUID == old(ci.macToUID) && ci.uidToClient == old(ci.uidToClient)
+//@   loop 4 invariant ci.macToUID == old(ci.macToUID) && ci.uidToClient == old(ci.uidToClient)
+
+//@ func macToKey(mac net.HardwareAddr) (key macKey)
+//@   trusted
+//@   modifies nothing
+
+// Storage level: the index is mutated only for a client object whose clash check has just succeeded, so a rejected
+// operation leaves the registry unchanged; an update erases every identifier of the stored client before adding the new ones.
+//@ func (s *Storage) Add(ctx context.Context, p *Persistent) (err error)
+//@   property C04
+//@   requires nolocks()
+//@   requires s.index != nil && wfRefs(s.index) && mapsOK(s.index)
+//@   callsite (*github.com/AdguardTeam/AdGuardHome/internal/client.index).add(ci, c) requires checked-first: c == p && clashOK[p]
+//@   modifies *
+//@ func (s *Storage) Update(ctx context.Context, name string, p *Persistent) (err error)
+//@   property C04
+//@   requires nolocks()
+//@   requires s.index != nil && wfRefs(s.index) && mapsOK(s.index)
+//@   callsite (*github.com/AdguardTeam/AdGuardHome/internal/client.index).remove(ci, c) requires checked-first: clashOK[p]
+//@   callsite (*github.com/AdguardTeam/AdGuardHome/internal/client.index).add(ci, c) requires checked-first: c == p && clashOK[p]
+//@   modifies *
+
+// Precedence ClientID > exact address (> subnet, inside findByIP) > MAC of the DHCP lease; own settings only on opt-out.
+//@ func (s *Storage) ApplyClientFiltering(id string, addr netip.Addr, setts *filtering.Settings)
+//@   property C04
+//@   requires nolocks()
+//@   requires s.index != nil && wfRefs(s.index) && mapsOK(s.index)
+//@   ensures by-clientid: old(id in s.index.clientIDToUID) ==> setts.ClientName == old(s.index.uidToClient[s.index.clientIDToUID[id]].Name)
+//@   ensures by-address: !old(id in s.index.clientIDToUID) && old(addr in s.index.ipToUID) ==> setts.ClientName == old(s.index.uidToClient[s.index.ipToUID[addr]].Name)
+//@   ensures own-settings-clientid: old(id in s.index.clientIDToUID) && old(s.index.uidToClient[s.index.clientIDToUID[id]].UseOwnSettings) ==> setts.FilteringEnabled == old(s.index.uidToClient[s.index.clientIDToUID[id]].FilteringEnabled) && setts.SafeBrowsingEnabled == old(s.index.uidToClient[s.index.clientIDToUID[id]].SafeBrowsingEnabled) && setts.ParentalEnabled == old(s.index.uidToClient[s.index.clientIDToUID[id]].ParentalEnabled)
+//@   ensures global-settings-clientid: old(id in s.index.clientIDToUID) && !old(s.index.uidToClient[s.index.clientIDToUID[id]].UseOwnSettings) ==> setts.FilteringEnabled == old(setts.FilteringEnabled) && setts.SafeBrowsingEnabled == old(setts.SafeBrowsingEnabled) && setts.ParentalEnabled == old(setts.ParentalEnabled) && setts.SafeSearchEnabled == old(setts.SafeSearchEnabled)
+//@   modifies *
+
+//@ func (c *Persistent) validate(ctx context.Context, l *slog.Logger, allTags []string) (err error)
+//@   trusted
+//@   modifies *c
+//@ func (ci *index) clashesUID(c *Persistent) (err error)
+//@   property C04
+//@   modifies nothing
+//@ func (ci *index) size() (n int)
+//@   property C04
+//@   modifies nothing
+//@ func (c *Persistent) IDs() (ids []string)
+//@   trusted
+//@   modifies nothing
+//@ func (c *Persistent) ShallowClone() (clone *Persistent)
+//@   trusted
+//@   ensures clone != nil && fresh(clone) && clone.Name == c.Name && clone.UseOwnSettings == c.UseOwnSettings && clone.FilteringEnabled == c.FilteringEnabled && clone.SafeBrowsingEnabled == c.SafeBrowsingEnabled && clone.ParentalEnabled == c.ParentalEnabled && clone.UseOwnBlockedServices == c.UseOwnBlockedServices
+//@   modifies nothing
